@@ -82,6 +82,16 @@ Z = {
  'mpz_import': 'void F(mpz_ptr, size_t, int, size_t, int, size_t, const void*)',
  'mpz_ui_pow_ui': 'void F(mpz_ptr, unsigned long, unsigned long)',
  'mpz_pow_ui': 'void F(mpz_ptr, mpz_srcptr, unsigned long)',
+ # bit-level functions (Bit_Row storage): operands are concrete, but the DESTINATION may be a dirty temporary
+ # that still carries a symbolic tag from an earlier use
+ 'mpz_com': 'void F(mpz_ptr, mpz_srcptr)',
+ 'mpz_and': 'void F(mpz_ptr, mpz_srcptr, mpz_srcptr)',
+ 'mpz_ior': 'void F(mpz_ptr, mpz_srcptr, mpz_srcptr)',
+ 'mpz_xor': 'void F(mpz_ptr, mpz_srcptr, mpz_srcptr)',
+ 'mpz_setbit': 'void F(mpz_ptr, mp_bitcnt_t)',
+ 'mpz_clrbit': 'void F(mpz_ptr, mp_bitcnt_t)',
+ 'mpz_combit': 'void F(mpz_ptr, mp_bitcnt_t)',
+ 'mpz_realloc2': 'void F(mpz_ptr, mp_bitcnt_t)',
  # rationals: pairs of (possibly symbolic) integers
  'mpq_init': 'void F(mpq_ptr)',
  'mpq_clear': 'void F(mpq_ptr)',
@@ -114,8 +124,8 @@ Z = {
  'mpq_set_num': 'void F(mpq_ptr, mpz_srcptr)',
  'mpq_set_den': 'void F(mpq_ptr, mpz_srcptr)',
 }
-KEEP = {'mpz_setbit','mpz_clrbit','mpz_combit','mpz_scan0','mpz_scan1','mpz_and','mpz_ior','mpz_xor','mpz_com',
-        'mpz_realloc2','mpz_realloc','mpz_getlimbn','mpz_popcount','mpz_hamdist','mpq_numref','mpq_denref',
+KEEP = {'mpz_scan0','mpz_scan1',
+        'mpz_realloc','mpz_getlimbn','mpz_popcount','mpz_hamdist','mpq_numref','mpq_denref',
         'mpz_limbs_read','mpz_limbs_write','mpz_limbs_modify','mpz_limbs_finish','mpz_roinit_n'}
 out = ['/* GENERATED by gen_gmp_h.py -- do not edit.  Shim gmp.h for Engine S. */',
        '#ifndef SYMGMP_GMP_H', '#define SYMGMP_GMP_H', '#include_next <gmp.h>',
